@@ -460,6 +460,26 @@ theorem c09_profile_torn_line_misread :
       = .dataErr .value := by
   constructor <;> decide
 
+/-- witness 5 (bytes): the file ends between the two bytes of the `é` of a benchmark name. The
+loader that decodes strictly ends in a UnicodeDecodeError (for good: nothing is appended by a
+session that dies while loading); the repaired loader (`errors="replace"`) sees a damaged line. -/
+theorem c09_cut_inside_character_crashes :
+    loadText false Variant.repaired Payloads.none hdr0
+        ("1\t1\t2.000000\tms\ttotal\tB".toList ++ [Char.ofNat 0xC3]) = .error (.crash .decode)
+    ∧ loadText false Variant.repaired Payloads.none hdr0
+        ("1\t1\t2.000000\tms\ttotal\tB".toList ++ [Char.ofNat 0xC3] ++ sessLine "rebench c.conf".toList ++ ['\n'])
+        = .error (.crash .decode)
+    ∧ loadText true Variant.repaired Payloads.none hdr0
+        ("1\t1\t2.000000\tms\ttotal\tB".toList ++ [Char.ofNat 0xC3] ++ sessLine "rebench c.conf".toList ++ ['\n'])
+        = .ok LState.init := by
+  refine ⟨by decide, by decide, by decide⟩
+
+/-- the repaired loader on bytes is the loader of the theorems above: whatever the bytes are,
+decoding does not fail (`c09_load_after_any_byte_prefix` is a statement about every byte text) -/
+theorem c09_loadText_tolerant (v : Variant) (pl : Payloads) (hdr t : Text) :
+    loadText true v pl hdr t = load v (records v pl hdr t) := by
+  simp [loadText]
+
 /-- the full statement is false of the pinned loader -/
 theorem c09_load_after_any_prefix_pinned_full_fails :
     ¬ (∀ (st : LState) (glued empty : Bool) (ds : List WDP) (k : Nat) (torn : List Rec), (∀ r ∈ torn, Torn r) →
